@@ -20,7 +20,7 @@
    white space and folds around ';' '=' ',', commas inside quotes / brackets and the expires summary
    are not proved against the grammar: render/parse oracle on values, lists and messages (offsets
    != 0, chunked, reused objects) and correspondence. *)
-From Sipsp Require Import Harness IP4 Numbers Misc NameAddrSpec NameAddrParam ContactSpec.
+From Sipsp Require Import Harness IP4 Numbers Misc NameAddrSpec NameAddrParam ContactSpec Capacity UpperBound NestMsg SigCoherent.
 Theorem C09_contact_expires_value : forall ds, all_digits ds -> expires_of ds = N.min (dec ds) MaxU32.
 Proof. exact contact_expires_saturates. Qed.
 Theorem C09_multi_value_header_kinds : forall h,
@@ -96,4 +96,23 @@ Example C09_example :
   parse_nameaddr HdrFrom [66;111;98;32;60;115;105;112;58;98;62;13;10;13;10] 0 pfrom0
   = Done 13 EOk (mkpfrom (mkpf 0 4) (mkpf 5 5) pf0 false false false HdrFrom 0 0 pf0 (mkpf 0 11) EOk 0 FbFIN 0 0 0 0 0).
 Proof. vm_compute. reflexivity. Qed.
+(* ---- the expires summary of the Contact values, every input and schedule -------------------------------------------------------------- *)
+(* after a finished value v is counted: the maximum and the minimum take it in (the minimum starts from 2^32-1 at the first value) *)
+Theorem C09_expires_summary_step : forall c1 v c6, ct_count c1 v = Some c6 ->
+  ct_maxexp c6 = N.max (ct_maxexp c1) (fb_expires v) /\
+  ct_minexp c6 = N.min (if ct_n c1 =? 0 then MaxU32 else ct_minexp c1) (fb_expires v).
+Proof. exact ct_count_exp. Qed.
+(* in every parsed message, under any feeding schedule: every finished Contact value - stored in the caller's array, kept as the
+   scratch value beyond it, or remembered as the first one - lies between the minimum and the maximum, and the count is not zero *)
+Theorem C09_expires_summary_bounds_every_value : forall flags B offs bl n nc o s o' e m', testbit flags bSIPMsgNoMoreData = false -> offs <= nnat (length B) ->
+  feeds flags B offs (msg_init bl (repeat hdr0 n) (repeat pfrom0 nc)) o s ->
+  parse_sipmsg flags B o s = Done o' e m' -> m_state m' = MFIN \/ m_state m' = MNoCLen ->
+  let c := pv_contacts (msg_pv m') in
+  let ok (v : pfrom) := fb_parsed v = true -> ct_n c <> 0 /\ ct_minexp c <= fb_expires v /\ fb_expires v <= ct_maxexp c in
+  Forall ok (ct_vals c) /\ ok (ct_last c) /\ ok (ct_first c).
+Proof.
+  intros flags B offs bl n nc o s o' e m' Hf Ho Hfd H Hs.
+  destruct (message_np_fed flags B offs bl n nc o s o' e m' Hf Ho Hfd H Hs) as (_ & _ & _ & (_ & HX) & _). exact HX.
+Qed.
 Print Assumptions C09_uri_and_tag_at_any_offset.
+Print Assumptions C09_expires_summary_bounds_every_value.
